@@ -251,3 +251,27 @@ impl fmt::Debug for FileRunner {
     }
 }
 */
+
+//------------ verification hooks (feature `verif-hooks`, add-only) ----------
+
+#[cfg(feature = "verif-hooks")]
+impl FileRunner {
+    /// Builds a runner the way `File::run` does, from the config values
+    /// (`format` as in the config file: "csv", "json" or "json-min").
+    pub fn verif_new(
+        format: &str,
+        filename: PathBuf,
+        component: Component,
+    ) -> Option<Self> {
+        let format = match format {
+            "csv" => Format::Csv,
+            "json" => Format::Json,
+            "json-min" => Format::JsonMin,
+            _ => return None,
+        };
+        Some(Self::new(
+            Config { format, filename: filename.into() },
+            component,
+        ))
+    }
+}
